@@ -23,6 +23,8 @@ func canaryRun() (out []byte, err error) {
 	docs := [][]byte{
 		[]byte(`{"a":["b\n",1,-2,2.5,18446744073709551615,123456789012345678901,{"c":null,"d":[true,false]}],"e":"f","g":{},"h":[]}`),
 		[]byte(`[[[["deep"]]],{"k":"` + string(bytes.Repeat([]byte("long string "), 60)) + `"},1e300,-0.0,"tail"]`),
+		// beyond 8 KiB: the two stages run as concurrent goroutines, several index buffers
+		[]byte(`{"big":[` + string(bytes.Repeat([]byte(`{"id":12345,"name":"item","tags":["a","b\n"],"ok":true},`), 220)) + `null],"end":"x"}`),
 	}
 	note := func(what string, b []byte, e error) {
 		out = append(out, what...)
